@@ -1,5 +1,5 @@
 (* C04 — BIC acceptance is exactly the ISO 9362 structure with a known country code. *)
-From Schwifty Require Import Lib.Base Lib.Lit Model.Clean Model.Data Model.Bic Spec.Iso13616 Spec.Iso9362.
+From Schwifty Require Import Lib.Base Lib.Lit Model.Clean Model.Data Model.Bic Spec.Iso13616 Spec.Iso9362 Spec.Whitespace.
 From Schwifty Require Import Proofs.CleanFacts Proofs.BicFacts Proofs.GenObligations.
 From Schwifty Require Import Gen.Env Gen.BicCfg.
 From Coq Require Import String.
@@ -14,7 +14,17 @@ Theorem C04_accept : forall txt strict,
   <-> iso9362_ok iso3166 strict (clean the_env txt) = true.
 Proof. exact (bic_new_iff the_env the_bic_cfg iso3166 env_obl C04_cfg_obl). Qed.
 
+(* "after removing whitespace": the cleaning removes exactly the white space of Spec/Whitespace.v, nothing else *)
+Lemma C04_ws_obl : ws_exact the_env = true.
+Proof. vm_cast_no_check (eq_refl true). Qed.
+
+Theorem C04_accept_ws : forall txt strict,
+  (exists s, bic_new the_env the_bic_cfg iso3166 txt false strict = Ok s)
+  <-> iso9362_ok iso3166 strict (upper the_env (strip_whitespace txt)) = true.
+Proof. intros txt strict. rewrite <- (clean_strip the_env txt C04_ws_obl). exact (C04_accept txt strict). Qed.
+
 Print Assumptions C04_accept.
+Print Assumptions C04_accept_ws.
 
 Example C04_ex_valid : iso9362_ok iso3166 false (tx "GENODEM1GLS") = true.
 Proof. vm_compute. reflexivity. Qed.
